@@ -227,8 +227,13 @@ def fields_by_var_clauses(chk, I, mod, cls):
         e = rw.evaluate_f(h)
         return z3.If(rw.ctx_has(c, h), rw.ctx_val(c, h), z3.If(rw.ctx_has(c, e), rw.ctx_val(c, e), noop(h)))
 
+    import ast as _ast
+    _m, _c, _node = I.src.find_def(f"{mod}.{cls}._fields_by_var")
+    FBV = next((a.targets[0].id for a in _ast.walk(_node) if isinstance(a, _ast.Assign) and len(a.targets) == 1 and isinstance(a.targets[0], _ast.Name)
+                and isinstance(a.value, _ast.Dict) and not a.value.keys), "fields_by_var")     # the local initialised with {} (by role, not by name)
+
     def havoc(I, path, env, k):
-        env.set("fields_by_var", SDict.from_arrays(path.fresh("f_has", z3.ArraySort(Val, BoolS)),
+        env.set(FBV, SDict.from_arrays(path.fresh("f_has", z3.ArraySort(Val, BoolS)),
                                                    path.fresh("f_val", z3.ArraySort(Val, Val))))
 
     def dom(t, key, k):
@@ -236,7 +241,7 @@ def fields_by_var_clauses(chk, I, mod, cls):
 
     def inv(I, path, env, k):
         t, c = box["t"], box["c"]
-        d = env.lookup("fields_by_var")
+        d = env.lookup(FBV)
         if isinstance(d, dict) and not d:
             has, get = (lambda key: z3.BoolVal(False)), (lambda key: VNone)
         else:
